@@ -6,6 +6,7 @@ use crate::dev::verif_env::*;
 use crate::meta::verif_header::{any_geo, info_of, mk_info, Geo};
 use crate::meta::{Mapping, MappingSource};
 use crate::verif_spec as spec;
+use std::cell::Cell;
 
 fn fmt_stub2(_a: core::fmt::Arguments<'_>) -> String {
     String::new()
@@ -36,7 +37,7 @@ fn c01_write_data_zero_once() {
     kani::assume(off_in + 512 <= cs);
     let state: u8 = kani::any(); // 0 absent, 1 registered & untouched, 2 registered & handled
     kani::assume(state <= 2);
-    env.new_cluster = KNewCluster { key: host >> g.cb, present: state != 0, flag: KLock::new(state == 2) };
+    env.new_cluster = KNewCluster { key: host >> g.cb, present: Cell::new(state != 0), flag: KLock::new(state == 2) };
     let cow: u8 = kani::any(); // 0 none, 1 compressed, 2 backing
     kani::assume(cow <= 2);
     let m = Mapping { source: MappingSource::DataFile, cluster_offset: Some(host), compressed_length: None, copied: true };
